@@ -89,6 +89,20 @@ WideExtentCases ==
    /\ \A k \in {44, 300, 1, 257} : P(ConvCase("wide", <<1, 1, 301>>, <<1, 1, k>>, <<>>, FALSE, "f32", <<"1d", "wide_extent", "kernel_" \o ToString(k)>>))
    /\ \A m \in {1, 257} : P(ConvCase("wide", <<1, 1, 4>>, <<m, 1, 2>>, <<>>, TRUE, "f32", <<"1d", "wide_extent", "kernels_" \o ToString(m)>>))
 
+\* zero-padding law: additional input channels whose kernel weights are all zero contribute nothing to any output element. TLC checks
+\* on 1 and 2 additional channels that the padded case has the outputs of the case; the harness pads the flagged cases to 16411 channels -
+\* a window (channels x kernel extents) of more than 2^16 elements slid over several positions, a size no enumeration reaches.
+PadAxis(t, a, x) ==
+   Mk(t.dt, [t.shape EXCEPT ![a + 1] = @ + x], LAMBDA idx : IF idx[a + 1] >= t.shape[a + 1] THEN 0 ELSE At(t, idx))
+ConvPadLawAt(X, W, B, attrs, x) == SemConv(PadAxis(X, 1, x), PadAxis(W, 1, x), B, attrs) = SemConv(X, W, B, attrs)
+PadConvCases ==
+   \A v \in {<<<<2, 2, 3, 3>>, <<2, 2, 2, 2>>, <<>>>>, <<<<1, 3, 5>>, <<2, 3, 2>>, <<AIs("strides", <<2>>), AIs("pads", <<1, 0>>)>>>>,
+             <<<<1, 1, 4, 3>>, <<3, 1, 2, 2>>, <<AIs("dilations", <<2, 1>>)>>>>} : \A bias \in BOOLEAN :
+      LET c == ConvCase("pad", v[1], v[2], v[3], bias, "f32", <<"zero_padding_law">>)
+          X == c.inputs[1] W == c.inputs[2] B == IF bias THEN c.inputs[3] ELSE Nil IN
+      (c.allowed.must = "value" /\ c.known = <<>> /\ ConvPadLawAt(X, W, B, v[3], 1) /\ ConvPadLawAt(X, W, B, v[3], 2)) =>
+         P(c @@ [pad |-> [ins |-> <<[pos |-> 0, axis |-> 1, blocks |-> 1, dim |-> "c"], [pos |-> 1, axis |-> 1, blocks |-> 1, dim |-> "c"]>>, outs |-> <<>>, attr |-> ""]])
+
 \* long images (an output count that is no multiple of a block size)
 LongConvCases ==
    /\ P(ConvCase("long", <<1, 1, 40003>>, <<1, 1, 2>>, <<>>, TRUE, "f32", <<"1d", "long">>))
@@ -100,7 +114,7 @@ Init ==
    \/ ("conv2d" \in Fams /\ st \in [fam : {"conv2d"}, H : 2..MaxHW, W : 2..MaxHW, kh : 1..MaxK2, kw : 1..MaxK2, done : {FALSE}])
 Emit ==
    /\ ~st.done
-   /\ CASE st.fam = "conv1d" -> Conv1D(st.L, st.k, st.s, st.d) /\ (st.L = 1 /\ st.k = 1 /\ st.s = 1 /\ st.d = 1 => SpecialCases /\ LongConvCases /\ TileConvCases /\ ManyKernelCases /\ WideExtentCases)
+   /\ CASE st.fam = "conv1d" -> Conv1D(st.L, st.k, st.s, st.d) /\ (st.L = 1 /\ st.k = 1 /\ st.s = 1 /\ st.d = 1 => SpecialCases /\ LongConvCases /\ TileConvCases /\ ManyKernelCases /\ WideExtentCases /\ PadConvCases)
         [] st.fam = "conv2d" -> Conv2D(st.H, st.W, st.kh, st.kw)
    /\ st' = [st EXCEPT !.done = TRUE]
 Next == Emit
